@@ -414,6 +414,29 @@ def convention_cases():
     clock.advance(100)
     if any(len(o) != 1 or o[0] is not reason for o in outs) or p._pendingCalls or clock.getDelayedCalls():
         return 'connection loss: outcomes %r, pending %r, timers %d' % (outs, p._pendingCalls, len(clock.getDelayedCalls()))
+    # a caller that retries from its errback while the loss is dispatched: the retried call is a call like any other - tracked,
+    # and completed by its deadline
+    p, clock = make_connection()
+    again, first = [], []
+
+    def retry(f):
+        first.append(f)
+        d2 = p.callRemote('/o', 'Again', interface='org.e.I', destination='org.e', timeout=5)
+        d2.addBoth(again.append)
+        return None
+    p.callRemote('/o', 'M', interface='org.e.I', destination='org.e', timeout=3).addErrback(retry)
+    other = []
+    p.callRemote('/o', 'N', interface='org.e.I', destination='org.e').addBoth(other.append)
+    reason = failure.Failure(RuntimeError('lost'))
+    try:
+        p.connectionLost(reason)
+        if len(p._pendingCalls) != 1 or len(clock.getDelayedCalls()) != 1:
+            return 'a call retried from an errback during the loss: %d calls tracked, %d timers armed (expected the retried call and its deadline)' % (len(p._pendingCalls), len(clock.getDelayedCalls()))
+        clock.advance(10)
+    except Exception as e:
+        return 'a call retried from an errback during the loss: %s: %s' % (type(e).__name__, e)
+    if first != [reason] or other != [reason] or len(again) != 1 or not (isinstance(again[0], failure.Failure) and again[0].check(error.TimeOut)) or p._pendingCalls or clock.getDelayedCalls():
+        return 'a call retried from an errback during the loss: first call %r, other call %r, retried call %r, still tracked %r' % (first, other, again, p._pendingCalls)
     # construction failure becomes a failed Deferred, never an exception
     try:
         d = p.callRemote('/o', '1bad', interface='org.e.I')
